@@ -657,6 +657,7 @@ func main() {
 	noMut := flag.Bool("nomutants", false, "skip the mutation self-test")
 	list := flag.Bool("list", false, "list registered properties")
 	manifest := flag.Bool("manifest", false, "rewrite MANIFEST.json from the registry")
+	lintMut := flag.Bool("lintmutants", false, "check that the pattern of every registered mutant occurs in /repo (no analysis)")
 	doc := flag.Bool("doc", false, "print the per-property section of DESIGN.md (markdown) from the registry and the last evidence files")
 	flag.StringVar(&repoDir, "repo", "/repo", "repository to analyse")
 	flag.StringVar(&verifDir, "verif", "/verif", "verif directory (findings, evidence, replay)")
@@ -677,6 +678,33 @@ func main() {
 	}
 	if *doc {
 		writeDoc()
+		return
+	}
+	if *lintMut {
+		bad := 0
+		var ids []string
+		for id := range registry {
+			ids = append(ids, id)
+		}
+		sort.Strings(ids)
+		for _, id := range ids {
+			for _, m := range registry[id].Mutants {
+				b, err := os.ReadFile(filepath.Join(repoDir, m.File))
+				n := 0
+				if err == nil {
+					n = strings.Count(string(b), m.Old)
+				}
+				ok := n == 1 && m.Nth == 0 || m.Nth > 0 && n >= m.Nth
+				if !ok {
+					bad++
+					fmt.Printf("%s %s: pattern occurs %d times (Nth=%d) in %s\n", id, m.Name, n, m.Nth, m.File)
+				}
+			}
+		}
+		fmt.Printf("%d mutant patterns do not apply\n", bad)
+		if bad > 0 {
+			os.Exit(1)
+		}
 		return
 	}
 	if *list {
